@@ -55,6 +55,7 @@
 (*   OutHintsOK  Extract/normalisation keep the +A/+R/+K hints the blocks  *)
 (*               had in the source (Manifest!HintsPreserved)               *)
 (*   DigestsOK   Collection.SizedDigests = Manifest!StrippedBlocks(m)      *)
+(*   FileSegsOK  the Go fs loader's internal segment list (not its reads)  *)
 (*   OutConventionOK  WHERE Extract puts things (trailing-slash rule, a    *)
 (*               file source renamed onto rel): the doc comment of         *)
 (*               manifest.Extract, not the statement                       *)
@@ -140,7 +141,11 @@ FileOK(path, kind, obs) ==
     ELSE /\ loaded = "ok" /\ mut = "none"
          /\ kind = "ok"
          /\ path \in Paths(m)
-         /\ LET want == Bytes(m, path) IN \A i \in DOMAIN obs : ObsOK(want, obs[i])
+         /\ LET want == Bytes(m, path) IN \A i \in DOMAIN obs : obs[i].via = "segments" \/ ObsOK(want, obs[i])
+\* DRIFT-ONLY: the loader's INTERNAL segment list (observed by reaching into the filenode) denotes the same bytes;
+\* what the statement is about is what the file API delivers ("read", "chunk")
+FileSegsOK(path, obs) == loaded = "any" \/ path \notin Paths(m) \/
+                         \A i \in DOMAIN obs : obs[i].via # "segments" \/ ObsOK(Bytes(m, path), obs[i])
 File(path, kind, obs) == FileOK(path, kind, obs) /\ UNCHANGED cvars
 
 (* Where manifest.Extract(src, relocate) puts things (doc comment of       *)
